@@ -234,6 +234,13 @@ class UnsupervisedOPF(OPF):
                     min_cut = cut
                     best_k = k
 
+                # Arcs added over the plateaus of this `k` do not belong to the next candidate
+                for i in range(self.subgraph.n_nodes):
+                    n_plateaus = self.subgraph.nodes[i].n_plateaus
+                    if n_plateaus > 0:
+                        del self.subgraph.nodes[i].adjacency[:n_plateaus]
+                        self.subgraph.nodes[i].n_plateaus = 0
+
         self.subgraph.destroy_arcs()
 
         self.subgraph.best_k = best_k
